@@ -60,7 +60,7 @@ theorem applyPack_remove (info : CompId → CompInfo) (w : WM) (t : Nat) (e : Ha
     w.applyPack info [.remove e c] = w.removeComp info t e c := by
   rw [applyPack_eq, packStart_other w _ (isCreateCmd_remove e c)]
   simp only [Cmd.entity, hv, Bool.not_true, Bool.false_eq_true, if_false, hla, isCreateCmd_remove,
-    List.foldl_cons, List.foldl_nil, hclosed]
+    List.foldl_cons, List.foldl_nil, packInit_existing]
   unfold WM.removeComp
   simp only [hl, Bool.false_eq_true, if_false, hv, Bool.not_true, hla]
   by_cases hc : c ∈ (w.arch pi).mask
@@ -177,7 +177,7 @@ idempotent on the widened mask (`hidem`). -/
 theorem applyPack_assign (info : CompId → CompInfo) (w : WM) (t : Nat) (e : Handle) (c : CompId) (tok : Nat)
     (pi : Nat) (hl : w.isLocked = false) (hv : w.isValid e = true) (hla : (w.locOf e).arch = some pi)
     (hpi : pi < w.archs.length)
-    (hclosed : closedMask w.deps (w.arch pi).mask = (w.arch pi).mask)
+    (_hclosed : closedMask w.deps (w.arch pi).mask = (w.arch pi).mask)
     (hidem : closedMask w.deps (closedMask w.deps (Mask.insert (w.arch pi).mask c)) =
       closedMask w.deps (Mask.insert (w.arch pi).mask c))
     (hnew : c ∉ (w.arch pi).mask) :
@@ -244,7 +244,7 @@ theorem applyPack_assign (info : CompId → CompInfo) (w : WM) (t : Nat) (e : Ha
   constructor
   · rw [applyPack_eq, packStart_other w _ (isCreateCmd_assign e c _)]
     simp only [Cmd.entity, hv, Bool.not_true, Bool.false_eq_true, if_false, hla, isCreateCmd_assign,
-      List.foldl_cons, List.foldl_nil, hclosed]
+      List.foldl_cons, List.foldl_nil, packInit_existing]
     unfold WM.assign
     simp only [hl, Bool.false_eq_true, if_false, hla]
     unfold packStep packFinish
